@@ -4,6 +4,7 @@ package main
 
 import (
 	"fmt"
+	"math/big"
 	"go/ast"
 	"go/token"
 	"go/types"
@@ -427,6 +428,22 @@ func (o *Obligation) queryWith(extra []Term) string { return o.querySel(extra, f
 var defRe = regexp.MustCompile(`^\(assert \(= ([A-Za-z_][A-Za-z0-9_.]*![0-9]+) `)
 
 const predAxiomPrefix = "(assert (forall ((v!pred Int)) (! (= ("
+// predAxiomName extracts the predicate symbol defined by a predicate-definition axiom ("" if a is none).
+func predAxiomName(a string) string {
+	if strings.HasPrefix(a, "(assert (= P_") {
+		rest := a[len("(assert (= "):]
+		return rest[:strings.IndexByte(rest, ' ')]
+	}
+	if strings.HasPrefix(a, "(assert (forall ((") {
+		i := strings.Index(a, "(! (= (P_")
+		if i < 0 || i > 200 {
+			return ""
+		}
+		rest := a[i+len("(! (= ("):]
+		return rest[:strings.IndexAny(rest, " )")]
+	}
+	return ""
+}
 
 func (o *Obligation) querySel(extra []Term, selectPremises bool) string {
 	return o.queryFull(extra, selectPremises, false)
@@ -470,7 +487,7 @@ func (o *Obligation) queryFull(extra []Term, selectPremises bool, local bool) st
 			continue
 		}
 		included[i] = true
-		if strings.HasPrefix(a, predAxiomPrefix) {
+		if predAxiomName(a) != "" {
 			predAxioms = append(predAxioms, a)
 			continue
 		}
@@ -485,14 +502,19 @@ func (o *Obligation) queryFull(extra []Term, selectPremises bool, local bool) st
 		// set-extensionality style goal: prove the body at one skolem constant, with every
 		// view-quantified premise instantiated at that constant (instances of premises: sound)
 		sk := "v!sk"
-		body.WriteString("(declare-fun v!sk () Int)\n(assert (and (<= 0 v!sk) (< v!sk 65536)))\n")
+		bar := strings.IndexByte(o.ViewGoal, '|')
+		rng, goalBody := o.ViewGoal[:bar], o.ViewGoal[bar+1:]
+		dd := strings.Index(rng, "..")
+		lo, _ := new(big.Int).SetString(rng[:dd], 0)
+		hi, _ := new(big.Int).SetString(rng[dd+2:], 0)
+		body.WriteString(fmt.Sprintf("(declare-fun v!sk () Int)\n(assert (and (<= %s v!sk) (< v!sk %s)))\n", lo.String(), hi.String()))
 		for _, vf := range e.viewFacts {
-			if vf.at >= o.NAssump || !included[vf.at] {
+			if vf.at >= o.NAssump || !included[vf.at] || vf.rng != rng {
 				continue
 			}
 			body.WriteString("(assert (=> " + vf.pc + " " + strings.ReplaceAll(vf.body, viewPH, sk) + "))\n")
 		}
-		body.WriteString("(assert (not " + strings.ReplaceAll(o.ViewGoal, viewPH, sk) + "))\n")
+		body.WriteString("(assert (not " + strings.ReplaceAll(goalBody, viewPH, sk) + "))\n")
 	} else {
 		body.WriteString("(assert (not " + o.Goal.S + "))\n")
 	}
@@ -526,9 +548,8 @@ func (o *Obligation) queryFull(extra []Term, selectPremises bool, local bool) st
 				if used[i] {
 					continue
 				}
-				name := a[len(predAxiomPrefix):]
-				name = name[:strings.IndexByte(name, ' ')]
-				if strings.Contains(txt, "("+name+" ") {
+				name := predAxiomName(a)
+				if strings.Contains(txt, "("+name+" ") || strings.Contains(txt, " "+name+")") || strings.Contains(txt, " "+name+" ") {
 					used[i] = true
 					txt = a + "\n" + txt
 					changed = true
